@@ -29,6 +29,8 @@ import GluonModel.ParOnce
 import GluonModel.ParLocks
 import GluonModel.Proofs.ParOnce
 import GluonModel.Proofs.ParLocks
+import GluonModel.ParIntern
+import GluonModel.Proofs.ParIntern
 
 namespace GluonModel.Props.C14
 open GluonModel.ParOnce GluonModel.ParLocks
@@ -272,5 +274,69 @@ example : ∀ p ∈ [rerootProg 1 2, rerootProg 1 2],
 example : canDeadlock (scenSys 4 [.reroot 1 2, .reroot 2 1]) = true := by decide +kernel
 example : canDeadlock (scenSys 4 [.reroot 1 2, .reroot 1 2]) = false := by decide +kernel
 example : deadlocked rerootDead = true := by decide
+
+
+/-! ## Intern: one text, one pointer — what field access by interned name rests on
+
+`GlobalVmState::intern` (vm/src/vm.rs:705-709) performs lookup-or-insert as ONE step under the
+interner's write lock.  Every thread compiling a program interns its field names, variant tags
+and string literals there; records are searched by comparing those pointers. -/
+section Intern
+open GluonModel.ParIntern
+
+/-- `intern_unique`: under ANY interleaving of any number of threads interning any strings —
+    atomically, or with the lookup first under the shared lock as long as the insert looks again
+    (`insertRecheck`) — every string has at most one representation: two requests for the same
+    text, by whichever threads and whenever, are handed the same pointer. -/
+theorem intern_unique (es : List ParIntern.Ev) (hsafe : ∀ e ∈ es, e.safe = true)
+    (t₁ t₂ : Nat) (s : String) (p₁ p₂ : Nat)
+    (h₁ : (t₁, s, p₁) ∈ (ParIntern.run es).got) (h₂ : (t₂, s, p₂) ∈ (ParIntern.run es).got) : p₁ = p₂ :=
+  ParIntern.Proofs.unique_of_inv _ (ParIntern.Proofs.inv_runFrom es ParIntern.empty hsafe ParIntern.Proofs.inv_empty)
+    t₁ t₂ s p₁ p₂ h₁ h₂
+
+/-- … and one pointer stands for one text. -/
+theorem intern_pointer_determines_text (es : List ParIntern.Ev) (hsafe : ∀ e ∈ es, e.safe = true)
+    (t₁ t₂ : Nat) (s₁ s₂ : String) (p : Nat)
+    (h₁ : (t₁, s₁, p) ∈ (ParIntern.run es).got) (h₂ : (t₂, s₂, p) ∈ (ParIntern.run es).got) : s₁ = s₂ :=
+  ParIntern.Proofs.injective_of_inv _ (ParIntern.Proofs.inv_runFrom es ParIntern.empty hsafe ParIntern.Proofs.inv_empty)
+    t₁ t₂ s₁ s₂ p h₁ h₂
+
+/-- Consequence: a record whose field names were interned by anybody at any time, searched with
+    a pointer obtained by anybody at any time for the text `s`, yields exactly the field NAMED `s`
+    (lookup by pointer = lookup by text).  This is what `GetField` on a row-polymorphic record,
+    `TestPolyTag` and `lookup_field` need in order to mean what the program says. -/
+theorem field_lookup_by_pointer_agrees_with_text (es : List ParIntern.Ev) (hsafe : ∀ e ∈ es, e.safe = true)
+    (fields : List (String × Nat × Int))
+    (hfields : ∀ f ∈ fields, ∃ t, (t, f.1, f.2.1) ∈ (ParIntern.run es).got)
+    (t : Nat) (s : String) (p : Nat) (hp : (t, s, p) ∈ (ParIntern.run es).got) :
+    lookupPtr (fields.map (fun f => (f.2.1, f.2.2))) p = lookupText (fields.map (fun f => (f.1, f.2.2))) s :=
+  ParIntern.Proofs.lookup_agrees (ParIntern.run es).got
+    (fun t₁ t₂ s p₁ p₂ => intern_unique es hsafe t₁ t₂ s p₁ p₂)
+    (fun t₁ t₂ s₁ s₂ p => intern_pointer_determines_text es hsafe t₁ t₂ s₁ s₂ p)
+    fields hfields t s p hp
+
+/-- The split protocol WITHOUT the second look (lookup under the read lock, later a blind insert —
+    the shape of a "lock-contention optimisation" of `GlobalVmState::intern`): two threads that
+    miss the same fresh string at the same moment are handed two different pointers. -/
+theorem split_intern_not_unique_fails :
+    (1, "x", 0) ∈ (ParIntern.run [.lookupS 1 "x", .lookupS 2 "x", .insertS 1, .insertS 2]).got ∧
+    (2, "x", 1) ∈ (ParIntern.run [.lookupS 1 "x", .lookupS 2 "x", .insertS 1, .insertS 2]).got := by
+  decide
+
+/-- … and then the record thread 1 built is searched in vain with the pointer everybody else gets
+    for the same name (`Field x does not exist`), although the field named `x` is there. -/
+theorem split_field_lookup_disagrees_fails :
+    let T := ParIntern.run [.lookupS 1 "x", .lookupS 2 "x", .insertS 1, .insertS 2, .intern 3 "x"]
+    ptrOf T 1 "x" = some 0 ∧ ptrOf T 3 "x" = some 1 ∧
+    lookupPtr [(0, 42)] 1 = none ∧ lookupText [("x", 42)] "x" = some 42 := by
+  decide
+
+/-! non-vacuity -/
+example : (ParIntern.run [.intern 1 "x", .lookupS 2 "y", .intern 3 "y", .insertRecheck 2, .intern 2 "x"]).got
+    = [(2, "x", 0), (2, "y", 1), (3, "y", 1), (1, "x", 0)] := by decide
+example : ∀ e ∈ [ParIntern.Ev.intern 1 "x", .lookupS 2 "y", .intern 3 "y", .insertRecheck 2, .intern 2 "x"], e.safe = true := by
+  decide
+
+end Intern
 
 end GluonModel.Props.C14
